@@ -1,6 +1,7 @@
 import M3d.Lemmas.MeshDiag
 import M3d.Lemmas.MeshDiagHier
 import M3d.Lemmas.MeshDiagOrient
+import M3d.Lemmas.MeshDiagOrientComp
 import M3d.Lemmas.MeshDiagRepair
 import M3d.Lemmas.MeshDiagLink
 /-!
@@ -188,20 +189,84 @@ theorem closed_manifold_diagnostics_clean (ts : List Tri) (h : ClosedManifold ts
 /-- **`maybeFaceOrientations` returns consistent flips** (meshes without degenerate faces, every
 iteration order of the faces and of `Neighbors`): whenever the search succeeds, flipping the
 flagged faces of a group makes no directed edge of the group occur twice — every edge shared by
-two faces of the group is traversed in opposite directions.  (So the search can only succeed on
-components that admit a consistent orientation; it returns `nil` otherwise.)
-
-Partial: that the groups partition the faces into the components of `Neighbors`, and the converse
-(`nil` only for non-orientable components), are not proved here; both are checked on every
-correspondence case (`rnm3`: groups, flip sets and counts of the real code against this model,
-Möbius bands / Klein bottles / fins must be rejected, re-oriented closed manifolds accepted and
-made `EdgeBalanced`). -/
-theorem orientations_consistent_partial (ts : List Tri) (hd : NoDegenerate ts)
+two faces of the group is traversed in opposite directions.  (The statement for the whole mesh,
+the partition into components and the converse are the next three theorems.) -/
+theorem orientations_consistent (ts : List Tri) (hd : NoDegenerate ts)
     (gs : List (List (Face × Bool))) (h : faceOrientations ts = .groups gs) :
     ∀ g ∈ gs, (dirEdges (applyFlags g)).Nodup := by
   unfold faceOrientations at h
   exact orientAll_spec (enum ts) (fun f hf => hd _ (mem_enum_snd hf)) _ _ _ _ (fun _ h => h) h
     (by intro g hg; cases hg)
+
+/-- **The groups are exactly the `Neighbors`-components** (meshes without degenerate faces, every
+iteration order): when the search succeeds, (1) the groups partition the faces — every face is in
+exactly one group; (2) every group is connected: each of its faces is reached from the group's
+start face (flag `false`) through a chain of `Mesh.Neighbors` steps (two or more common corners);
+(3) every group is closed: a `Neighbors`-neighbour of a face of the group is in the group.  The
+`seenEdges` bookkeeping therefore never mixes two components, and the majority vote of
+`RepairNormalsMajority` is taken per component. -/
+theorem orientation_groups_are_components (ts : List Tri) (hd : NoDegenerate ts)
+    (gs : List (List (Face × Bool))) (h : faceOrientations ts = .groups gs) :
+    (gs.flatMap fun g => g.map (·.1)).Perm (enum ts) ∧
+    (∀ g ∈ gs, ∃ s, g.head? = some (s, false) ∧ ∀ f ∈ g, Reach isNeighbor (enum ts) s f.1) ∧
+    (∀ g ∈ gs, ∀ f ∈ g, ∀ h ∈ enum ts, isNeighbor f.1 h = true → h ∈ g.map (·.1)) := by
+  have hinv := orientInv_of_groups ts hd gs h
+  exact ⟨by simpa [groupFaces] using hinv.perm, hinv.conn, hinv.gclosed⟩
+
+/-- **A successful search orients the whole mesh**: there is a flip assignment `φ` on the face
+indices that agrees with every flag returned (`φ i = flag of face i`) and after which NO directed
+edge of the mesh is used twice (`Orientable`); the re-oriented mesh is the groups with their flags
+applied.  Faces of different groups never share an edge (they would be `Neighbors`), which is why
+the per-group bookkeeping suffices. -/
+theorem orientations_consistent_whole_mesh (ts : List Tri) (hd : NoDegenerate ts)
+    (gs : List (List (Face × Bool))) (h : faceOrientations ts = .groups gs) :
+    ∃ φ : Nat → Bool, (dirEdges (orientedBy φ (enum ts))).Nodup ∧
+      (orientedBy φ (enum ts)).Perm (applyFlags gs.flatten) ∧
+      ∀ g ∈ gs, ∀ p ∈ g, φ p.1.1 = p.2 := by
+  have hinv := orientInv_of_groups ts hd gs h
+  exact groups_orient_all (enum_nodup ts) (fun f hf => hd _ (mem_enum_snd hf))
+    (fun f hf g hg => enum_idx_inj hf hg) (by simpa using hinv.perm) hinv.gclosed
+    (orientations_consistent ts hd gs h)
+
+/-- **`nil` exactly for non-orientable input** (meshes without degenerate faces, every iteration
+order of the faces, of `remaining` and of `Neighbors`): `maybeFaceOrientations` returns groups iff
+the mesh has a consistent orientation (`Orientable`: some set of faces can be flipped so that no
+directed edge is used twice); it returns `nil` (`FaceOrientations`/`RepairNormalsMajority` panic
+"mesh is not orientable", `Orientable()` false) iff it does not; and the "impossible case
+detected" panic is unreachable. -/
+theorem orientation_search_exact (ts : List Tri) (hd : NoDegenerate ts) :
+    ((∃ gs, faceOrientations ts = .groups gs) ↔ Orientable ts) ∧
+    (faceOrientations ts = .notOrientable ↔ ¬ Orientable ts) ∧
+    faceOrientations ts ≠ .impossible := by
+  have hdall : ∀ f ∈ enum ts, TriNondeg f.2 := fun f hf => hd _ (mem_enum_snd hf)
+  have himp : faceOrientations ts ≠ .impossible :=
+    orientAll_not_impossible (enum ts) hdall _ _ _ (fun _ h => h)
+  have hiff : (∃ gs, faceOrientations ts = .groups gs) ↔ Orientable ts := by
+    constructor
+    · rintro ⟨gs, h⟩
+      obtain ⟨φ, hφ, _⟩ := orientations_consistent_whole_mesh ts hd gs h
+      exact ⟨φ, hφ⟩
+    · rintro ⟨φ, hφ⟩
+      rw [dirEdges_orientedBy] at hφ
+      exact orientAll_complete (enum ts) φ hφ hdall (enum_nodup ts) _ _ _ (fun _ h => h) (enum_nodup ts)
+  refine ⟨hiff, ?_, himp⟩
+  rw [← hiff]
+  cases hres : faceOrientations ts with
+  | groups gs => simp
+  | notOrientable => simp
+  | impossible => exact absurd hres himp
+
+/-- Non-vacuity: a re-oriented tetrahedron is orientable and accepted (one group, the odd face
+flagged); a Möbius band and a fin on a closed surface (an edge with three faces) are rejected. -/
+example :
+    (match faceOrientations [(0,2,1),(0,2,3),(0,3,1),(1,3,2)] with
+      | .groups gs => gs.map fun g => g.map fun p => (p.1.1, p.2)
+      | _ => []) = [[(0,false),(1,true),(2,true),(3,true)]] ∧
+    (match faceOrientations [(0,1,3),(1,4,3),(1,2,4),(2,5,4),(2,3,5),(3,0,5)] with
+      | .notOrientable => true | _ => false) = true ∧
+    (match faceOrientations [(0,1,2),(0,2,3),(0,3,1),(1,3,2),(0,1,4)] with
+      | .notOrientable => true | _ => false) = true := by
+  decide
 
 /-- **`RepairNormalsMajority` flips the minority side of every group**: the number of faces it
 flips in a group is `min(k, n − k)` where `k` of the group's `n` faces carry the flag, it uses
@@ -225,7 +290,7 @@ theorem repair_normals_majority_consistent (ts : List Tri) (hd : NoDegenerate ts
     subst h
     intro g hg
     obtain ⟨g0, hg0, rfl⟩ := List.mem_map.mp hg
-    have h0 := orientations_consistent_partial ts hd gs hf g0 hg0
+    have h0 := orientations_consistent ts hd gs hf g0 hg0
     rcases majorityFlags_cases g0 with h1 | h1
     · rw [h1]; exact h0
     · rw [h1]
@@ -234,6 +299,82 @@ theorem repair_normals_majority_consistent (ts : List Tri) (hd : NoDegenerate ts
         have := congrArg swap hab; simp only [swap, Prod.mk.injEq] at this; exact Prod.ext this.1 this.2)) h0
   | notOrientable => rw [hf] at h; cases h
   | impossible => rw [hf] at h; cases h
+
+/-- **`RepairNormalsMajority` yields a clean mesh whenever that is achievable** (meshes without
+degenerate faces, every iteration order).  (1) It succeeds iff the mesh is `Orientable` (otherwise
+it panics "mesh is not orientable").  When it succeeds: (2) the output is the input with some
+faces flipped — every face exactly once; (3) on the WHOLE output no directed edge is used twice,
+i.e. `InconsistentEdges` is empty; (4) if moreover `NeedsRepair` is false (every edge shared by
+exactly two triangles — flipping faces cannot change that), the output is `Surface.EdgeBalanced`:
+all edge diagnostics are clean. -/
+theorem repair_normals_majority_clean (ts : List Tri) (hd : NoDegenerate ts) :
+    ((∃ fl, repairNormalsMajority ts = some fl) ↔ Orientable ts) ∧
+    ∀ fl, repairNormalsMajority ts = some fl →
+      (fl.flatten.map (·.1)).Perm (enum ts) ∧
+      (dirEdges (applyFlags fl.flatten)).Nodup ∧
+      (needsRepair ts = false → EdgeBalanced (applyFlags fl.flatten)) := by
+  constructor
+  · rw [← (orientation_search_exact ts hd).1]
+    unfold repairNormalsMajority
+    cases faceOrientations ts <;> simp
+  intro fl h
+  have hsound := repair_normals_majority_consistent ts hd fl h
+  unfold repairNormalsMajority at h
+  cases hf : faceOrientations ts with
+  | notOrientable => rw [hf] at h; cases h
+  | impossible => rw [hf] at h; cases h
+  | groups gs =>
+    rw [hf] at h
+    simp only [Option.some.injEq] at h
+    subst h
+    have hinv := orientInv_of_groups ts hd gs hf
+    have hperm : (groupFaces (gs.map majorityFlags)).Perm (enum ts) := by
+      rw [groupFaces_majority]; simpa using hinv.perm
+    have hgc : ∀ g ∈ gs.map majorityFlags, ∀ f ∈ g, ∀ h ∈ enum ts, isNeighbor f.1 h = true →
+        h ∈ g.map (·.1) := by
+      intro g hg f hf' h hh hn
+      obtain ⟨g0, hg0, rfl⟩ := List.mem_map.mp hg
+      rw [majorityFlags_map_fst]
+      have hf1 : f.1 ∈ g0.map (·.1) := by
+        rw [← majorityFlags_map_fst]; exact List.mem_map_of_mem hf'
+      obtain ⟨f0, hf0, hf0e⟩ := List.mem_map.mp hf1
+      exact hinv.gclosed g0 hg0 f0 hf0 h hh (by rw [hf0e]; exact hn)
+    obtain ⟨φ, hφ, hφperm, _⟩ := groups_orient_all (enum_nodup ts)
+      (fun f hf => hd _ (mem_enum_snd hf)) (fun f hf g hg => enum_idx_inj hf hg) hperm hgc hsound
+    have hfaces : ((gs.map majorityFlags).flatten.map (·.1)).Perm (enum ts) := by
+      have : groupFaces (gs.map majorityFlags) = (gs.map majorityFlags).flatten.map (·.1) := by
+        simp [groupFaces, List.flatMap_def, List.map_flatten]
+      rw [← this]; exact hperm
+    have hnodup : (dirEdges (applyFlags (gs.map majorityFlags).flatten)).Nodup :=
+      (hφperm.flatMap_right triEdges).nodup_iff.mp hφ
+    refine ⟨hfaces, hnodup, fun hnr e he => ?_⟩
+    -- undirected multiplicities are those of the input
+    have hts : (dirEdges ((gs.map majorityFlags).flatten.map (·.1.2))).Perm (dirEdges ts) := by
+      have := (hfaces.map (·.2)).flatMap_right triEdges
+      rw [enum_map_snd, List.map_map] at this
+      exact this
+    have hU : ∀ e', (dirEdges (applyFlags (gs.map majorityFlags).flatten)).count e' +
+        (dirEdges (applyFlags (gs.map majorityFlags).flatten)).count (swap e') =
+        (dirEdges ts).count e' + (dirEdges ts).count (swap e') := by
+      intro e'
+      rw [undirected_count_applyFlags, hts.count_eq, hts.count_eq]
+    have h2 := (needs_repair_iff_two_faces ts hd).mp hnr
+    have hc1 := List.nodup_iff_count_le_one.mp hnodup e
+    have hc2 := List.nodup_iff_count_le_one.mp hnodup (swap e)
+    have hpos : 0 < (dirEdges (applyFlags (gs.map majorityFlags).flatten)).count e :=
+      List.count_pos_iff.mpr he
+    have hUe := hU e
+    have hsum : (dirEdges ts).count e + (dirEdges ts).count (swap e) = 2 := by
+      by_cases hin : e ∈ dirEdges ts
+      · exact h2 e hin
+      · have h0 : (dirEdges ts).count e = 0 := List.count_eq_zero.mpr hin
+        have hin' : swap e ∈ dirEdges ts := by
+          apply List.count_pos_iff.mp
+          omega
+        have := h2 (swap e) hin'
+        rw [swap_swap] at this
+        omega
+    omega
 
 /-- Non-vacuity: a tetrahedron with one face re-oriented is accepted, that face is the minority
 and is the one flipped; a Möbius band is rejected. -/
@@ -270,6 +411,41 @@ theorem repair_normals_restores (orig : List Tri) (bad : Nat → Bool) :
         cases hb : bad n <;> simp [ff]
       · rw [(ih (n + 1)).2]
   exact ⟨(key orig 0).1, (key orig 0).2⟩
+
+/-- 2-D twin (`model2d.Mesh.RepairNormals`): with an oracle that reports exactly the reversed
+segments, the output is the original segment list and the count is the number of reversed ones. -/
+theorem repair_normals2_restores (orig : List Seg) (bad : Nat → Bool) :
+    (repairNormals2 (fun f => bad f.1)
+        (((List.range orig.length).zip orig).map fun f => if bad f.1 then swap f.2 else f.2)).1 = orig ∧
+    (repairNormals2 (fun f => bad f.1)
+        (((List.range orig.length).zip orig).map fun f => if bad f.1 then swap f.2 else f.2)).2
+      = ((List.range orig.length).zip orig).countP (fun f => bad f.1) := by
+  have key : ∀ (l : List Nat) (o : List Seg) (g : Nat × Seg → Seg),
+      l.zip ((l.zip o).map g) = (l.zip o).map fun p => (p.1, g p) := by
+    intro l
+    induction l with
+    | nil => intro o g; rfl
+    | cons x xs ih =>
+      intro o g
+      cases o with
+      | nil => rfl
+      | cons y ys => simp only [List.zip_cons_cons, List.map_cons, ih]
+  have hlen : (((List.range orig.length).zip orig).map fun f => if bad f.1 then swap f.2 else f.2).length
+      = orig.length := by simp
+  simp only [repairNormals2, hlen, key, List.map_map, List.countP_map]
+  constructor
+  · have : ((fun (f : Nat × Seg) => if bad f.1 = true then swap f.2 else f.2) ∘
+        fun (p : Nat × Seg) => (p.1, if bad p.1 = true then swap p.2 else p.2)) = Prod.snd := by
+      funext p
+      simp only [Function.comp]
+      cases bad p.1 <;> simp [swap_swap]
+    rw [this]
+    exact List.map_snd_zip (by simp)
+  · rfl
+
+/-- Non-vacuity: a square with two sides reversed is restored. -/
+example : (repairNormals2 (fun f => f.1 == 1 || f.1 == 3) [(0,1),(2,1),(2,3),(0,3)]).1
+    = [(0,1),(1,2),(2,3),(3,0)] := by decide
 
 /-! ## vertex merging -/
 
@@ -347,6 +523,45 @@ theorem hierarchy_is_insertion_sequence (enc : Comp → Comp → Bool) (sorted :
   congr 1
   funext f x
   exact Forest.insertTop_eq_insertLeaf enc x f
+
+/-- **Only the classification of whole components matters** — the builder probes containment
+with two different points of the new component (the sweep's minimum vertex at the root level,
+`mesh.VertexSlice()[0]` — an arbitrary vertex — inside `insertLeaf`).  If both probes answer, for
+every pair of components, what the relation `enc` ("encloses") says, the hierarchy is the one
+built from `enc` alone; so `hierarchy_nesting` / `hierarchy_contains_eq_evenodd` apply whichever
+vertices are used.  A probe that is NOT classified like the component (e.g. a point off the
+component, such as the centre of its bounding box, which may lie in a notch of a non-convex
+encloser) violates this hypothesis: see the example below. -/
+theorem hierarchy_probe_independent (enc encTop encIn : Comp → Comp → Bool) (sorted : List Nat)
+    (ts : List Tri)
+    (hagree : ∀ a ∈ strippedComps (enum ts) sorted (enum ts), ∀ b ∈ strippedComps (enum ts) sorted (enum ts),
+      encTop a b = enc a b ∧ encIn a b = enc a b) :
+    meshToHierarchy encTop encIn sorted ts = meshToHierarchy enc enc sorted ts := by
+  rw [hierarchy_is_insertion_sequence]
+  unfold meshToHierarchy
+  rw [hierLoop_eq_foldl]
+  refine Forest.foldl_insertTop_congr encTop encIn enc _ .nil fun x hx y hy => ?_
+  rcases hy with hy | hy
+  · simp [Forest.nodes] at hy
+  · exact hagree y hy x hx
+
+/-- Why the probe must be a point of the leaf: three nested tetrahedra `A ⊃ B ⊃ C` (swept from
+vertices 0, 4, 8).  With correct probes `C` becomes a child of `B`, and a point inside all three is
+classified as inside (odd).  If the inner probe does not see that `B` encloses `C` (a point off
+`C`, outside `B`), `C` is attached as a sibling of `B` and the same point is classified as
+outside — every face is still there (`hierarchy_partition`), only nesting and `Contains` break. -/
+example :
+    let ts : List Tri := [(0,1,2),(0,2,3),(0,3,1),(1,3,2),(4,5,6),(4,6,7),(4,7,5),(5,7,6),
+      (8,9,10),(8,10,11),(8,11,9),(9,11,10)]
+    let enc : Comp → Comp → Bool := fun a b => decide (a.1 < b.1)
+    let encBad : Comp → Comp → Bool := fun a b => a.1 == 0 && b.1 != 0
+    let sorted := [0,4,8,1,2,3,5,6,7,9,10,11]
+    let good := meshToHierarchy enc enc sorted ts
+    let bad := meshToHierarchy enc encBad sorted ts
+    (Forest.nodes good).map (·.1) = [0,4,8] ∧ (Forest.nodes bad).map (·.1) = [0,4,8] ∧
+    Forest.contains (fun _ => true) good = true ∧ Forest.contains (fun _ => true) bad = false ∧
+    ((Forest.fullMesh (·.2) bad).map (·.1)).length = 12 := by
+  decide
 
 /-- **Nesting** — assume the containment oracle `enc` (the same answer for the sweep vertex and
 for `VertexSlice()[0]`, as for a correct point-in-component test on non-intersecting components)
